@@ -606,6 +606,9 @@ def without_empty_keywords(tree):
         if isinstance(c, _ast.Call) and getattr(c, "keywords", None) == []:
             del c.keywords
             n += 1
+        if isinstance(c, _ast.Call) and getattr(c, "args", None) == []:
+            del c.args  # (a call without arguments, built as ast.Call(func=..))
+            n += 1
     return t, n
 
 
@@ -615,6 +618,8 @@ def with_keywords_again(tree):
     for c in _ast.walk(tree):
         if isinstance(c, _ast.Call) and not hasattr(c, "keywords"):
             c.keywords = []
+        if isinstance(c, _ast.Call) and not hasattr(c, "args"):
+            c.args = []
     return tree
 
 
